@@ -4,25 +4,25 @@ import json, os
 V = os.path.dirname(os.path.dirname(os.path.abspath(__file__)))
 MC = "model_checking"
 CHECKS = {
- "C01": (MC, "TLC trace validation of real (input, output) syntax trees against the TLA+ relation R01 (normal-form equality) over the fixed universes; exhaustive TLC design checks of the L2 layout models (ListLayout, FlowLayout+optional parentheses) whose behaviours are replayed into the real code", "§6 C01, §0"),
+ "C01": (MC, "TLC trace validation of real (input, output) syntax trees against the TLA+ relation R01 (normal-form equality) over the fixed universes; exhaustive TLC design checks of the L2 layout models (ListLayout, FlowLayout+optional parentheses, TableMC: table / grid argument lists) whose behaviours are replayed into the real code", "§6 C01, §0"),
  "C02": ("exploration", "the real Typst compiler is the logged oracle: TLC checks Obs(out) = Obs(in) (pages, pixel digests, metadata or diagnostics) on every (program, distinct formatted output) pair of U-prog; exploration strength because the oracle is outside any model", "§6 C02, §7"),
- "C03": (MC, "TLC trace validation: every second Format step of a recorded run must stutter (R03), at every width where the layout changes; L2 models ListLayout / ChainLayout / MarkupLayout checked exhaustively and replayed", "§6 C03"),
- "C04": (MC, "TLC trace validation of the parser's error flag on every recorded output (R04), widths 0 and 1 always included; CommentTermination / BreakSafety / DelimBalance invariants on the L2 models in every rendering", "§6 C04"),
- "C05": (MC, "Pipeline.tla (no action for panic / abort / time-out; refuses iff erroneous) model-checked incl. termination; every call of U-str (exhaustive to length 3/4 over 28 critical characters), U-mut, U-nest and degenerate documents validated against it with the phase-hook trace", "§6 C05"),
- "C06": (MC, "TLC trace validation of comment kind / normalised text / word-position sequences and of the word stream (R06); comment conservation invariants of the L2 stylist models in every rendering", "§6 C06"),
+ "C03": (MC, "TLC trace validation: every second Format step of a recorded run must stutter (R03), at every width where the layout changes; L2 models ListLayout / ChainLayout / MarkupLayout / DotChainMC (one-line form vs breakable dot chain, source indentation as an input dimension) / CommentMC / TableMC checked exhaustively incl. model-level convergence (output re-lexed and laid out again) and replayed", "§6 C03"),
+ "C04": (MC, "TLC trace validation of the parser's error flag on every recorded output (R04), widths 0 and 1 always included; CommentTermination / BreakSafety / DelimBalance invariants on the L2 models (ListLayout, ChainLayout, FlowLayout, DotChainMC) in every rendering", "§6 C04"),
+ "C05": (MC, "Pipeline.tla (no action for panic / abort / time-out; refuses iff erroneous) model-checked incl. termination; every call of U-str (exhaustive to length 3/4 over 28 critical characters), U-mut, U-nest, U-num (extreme values of the literal whose value the formatter reads) and degenerate documents validated against it with the phase-hook trace", "§6 C05"),
+ "C06": (MC, "TLC trace validation of comment kind / normalised text / word-position sequences and of the word stream (R06); comment conservation invariants of the L2 stylist models (incl. CommentMC: block comment alignment, DotChainMC, TableMC, ImportMC) in every rendering", "§6 C06"),
  "C07": (MC, "TLC trace validation of R07 (text of the node after the k-th directive, optional wrappers skipped) with directives at every leaf boundary of every seed", "§6 C07"),
  "C08": (MC, "TLC trace validation of per-Markup-node prose signatures (R08, lockstep walk); MarkupLayout model (line collector + boundaries) checked exhaustively and replayed", "§6 C08"),
  "C09": (MC, "TLC trace validation of atom / blank / line-feed signatures of every Math / MathDelimited / Equation node (R09)", "§6 C09"),
  "C10": (MC, "TLC trace validation of the literal leaf sequences incl. typst's own ast::Raw extraction (R10)", "§6 C10"),
  "C11": (MC, "TLC trace validation of the output lines (R11) on every output of every universe; Strip/Render hygiene invariant of the L2 models", "§6 C11"),
- "C12": (MC, "TLC trace validation of line indentation against the unit (R12a, every width) and of pairwise unit scaling at width 10^4 (R12b, units 2/3/5/8); IndentUnit invariant of the L2 models", "§6 C12"),
- "C13": (MC, "TLC trace validation of the R13 contract (no panic, covering node on a node boundary, refusal only for erroneous sources, splice parses and is R01-equivalent) on all (start, end) pairs of small documents incl. ends past the text", "§6 C13"),
+ "C12": (MC, "TLC trace validation of line indentation against the unit (R12a, every width) and of pairwise unit scaling at width 10^4 (R12b, units 2/3/5/8); IndentUnit invariant of the L2 models (ListLayout, DotChainMC, CommentMC)", "§6 C12"),
+ "C13": (MC, "TLC trace validation of the R13 contract (no panic, covering node on a node boundary, refusal only for erroneous sources, splice parses and is R01-equivalent) on all (start, end) pairs of small documents incl. ends past the text; RangeMC.tla (clamp, trim, innermost covering formattable node, refusal) model-checked over all trees <= 3/4 nodes x all texts x all ranges", "§6 C13"),
  "C14": (MC, "Cli.tla: the code-shaped driver model satisfies the C14 contract in every state for all trees / command lines within the bounds (TLC, exhaustive, any directory order); TLC-generated scenarios are run against the real binary and validated by TraceCli (read-only, exit status, silence, syscall trace)", "§6 C14-C16"),
- "C15": (MC, "Cli.tla contract (write exactly where allowed, exactly the library's text, failures reported and isolated, second run a no-op) model-checked and validated on real runs incl. strace write-opens / read order", "§6 C14-C16"),
+ "C15": (MC, "Cli.tla contract (write exactly where allowed — regular files only, symbolic links and their targets untouched —, exactly the library's text, failures reported and isolated, second run a no-op) model-checked and validated on real runs incl. strace write-opens / read order", "§6 C14-C16"),
  "C16": (MC, "Cli.tla stdout contract on real runs + front-end differential: file/stdin/three files/-i/format-all/format_with_width against the library byte for byte over sources x the option grid (R16)", "§6 C14-C16"),
  "C17": (MC, "Session.tla (no shared variable; Deterministic) model-checked; its interleavings of the pipeline phases are replayed with real threads gated at the phase hook; sequential, free-running and second-process histories validated by TraceSession", "§6 C17"),
  "C18": (MC, "Cost.tla (BoundedVisits, with the try-then-fallback anti-pattern as vacuity guard) model-checked; visit logs of the real code (hook H1) on every nesting family to depth 48/200 validated against it", "§6 C18"),
- "C19": (MC, "TLC trace validation of R19 on (input, output with reordering off, output with reordering on) triples of all import seeds with trivia at every boundary", "§6 C19"),
+ "C19": (MC, "TLC trace validation of R19 on (input, output with reordering off, output with reordering on) triples of all import seeds with trivia at every boundary; ImportMC.tla (reorder guard, sort of all flattened children, bound names) model-checked with reordering off and on and replayed into the real code under both settings", "§6 C19"),
 }
 NOT_YET = {}
 def main():
